@@ -45,7 +45,8 @@ Definition hex_digit (d : Z) : Z := if d <? 10 then 48 + d else 87 + d.      (* 
 Fixpoint hex_digits (fuel : nat) (n : Z) (acc : str) : str :=
   match fuel with
   | O => acc
-  | S f => if n <? 16 then hex_digit n :: acc else hex_digits f (n / 16) (hex_digit (n mod 16) :: acc)
+  | S f => if n <? 16 then hex_digit n :: acc
+           else hex_digits f (Z.shiftr n 4) (hex_digit (Z.land n 15) :: acc)     (* n // 16, n % 16: linear on big ints *)
   end.
 (* hex(value): '0x..' / '-0x..' *)
 Definition hex_text (z : Z) : str :=
@@ -59,7 +60,7 @@ Definition hex_value (d : Z) : option Z :=
 Fixpoint parse_hex (s : str) (acc : Z) : option Z :=
   match s with
   | [] => Some acc
-  | d :: r => match hex_value d with Some v => parse_hex r (acc * 16 + v) | None => None end
+  | d :: r => match hex_value d with Some v => parse_hex r (Z.shiftl acc 4 + v) | None => None end   (* acc * 16 + v *)
   end.
 
 Definition bit_length (z : Z) : Z := if z =? 0 then 0 else Z.log2 (Z.abs z) + 1.
